@@ -56,18 +56,51 @@ def check_sorts(ctx, rep, funcs, rule=RULE):
         except Exception:
             continue
 
+        parent = {}
+        for n0 in ast.walk(f.node):
+            for c0 in ast.iter_child_nodes(n0):
+                parent[id(c0)] = n0
+
+        def local_types(node):
+            # comprehension variables are typed from their own generator, not from the function-wide union
+            out = {}
+            cur = node
+            while id(cur) in parent:
+                p0 = parent[id(cur)]
+                if isinstance(p0, (ast.GeneratorExp, ast.ListComp, ast.SetComp, ast.DictComp)):
+                    for g0 in p0.generators:
+                        if isinstance(g0.target, ast.Name) and g0.target.id not in out:
+                            try:
+                                out[g0.target.id] = elem_type(env.type_of(g0.iter))
+                            except Exception:
+                                pass
+                cur = p0
+            return out
+
+        cur_local = {}
+
         def ty(e):
+            if isinstance(e, ast.Name) and e.id in cur_local and cur_local[e.id] is not None:
+                return cur_local[e.id]
             try:
                 return env.type_of(e)
             except Exception:
                 return None
 
         for s in walk_no_nested(f.node):
+            cur_local.clear()
+            if isinstance(s, (ast.Compare, ast.BinOp)):
+                cur_local.update(local_types(s))
             if isinstance(s, ast.Compare) and len(s.ops) == 1:
                 a, b = s.left, s.comparators[0]
                 op = s.ops[0]
                 if isinstance(op, (ast.In, ast.NotIn)):
                     sa, tb = sort_of(ty(a)), ty(b)
+                    if sa and sort_of(tb):
+                        # the right-hand side is itself a name (a string), not a collection of names
+                        n += 1
+                        rep.violates(rule, f, s, '`{}` tests whether the {} {} occurs INSIDE the text of the {} {} (a substring test between two names), not whether it belongs to a collection: q1 is "in" q10 and in {{q1,q2}}'.format(u(s), sa, u(a), sort_of(tb), u(b)))
+                        continue
                     sb = elem_sort(tb)
                     if sb is None and tb is not None and all(m[0] in ('dict', 'defaultdict') for m in members(tb)):
                         sb = sort_of(elem_type(tb))
